@@ -7,6 +7,8 @@ import (
 	"encoding/pem"
 	"fmt"
 	"net"
+	"os"
+	"path/filepath"
 	"strings"
 	"sync"
 	"sync/atomic"
@@ -31,7 +33,7 @@ func init() {
 		Phases: func(tier string, seed int64) []Phase {
 			return []Phase{{Name: "gating", Run: c18Run}, {Name: "testdirectory-mtls", Run: c18Directory}}
 		},
-		MinObserved: []string{"offending_connections", "conforming_ops_verified", "tls13_no_cert_requests_in_flight", "directory_offending_connections", "stranger_certificates_prepared", "conforming_clients_served_next_to_abandoned_handshakes"},
+		MinObserved: []string{"offending_connections", "conforming_ops_verified", "tls13_no_cert_requests_in_flight", "directory_offending_connections", "stranger_certificates_prepared", "conforming_clients_served_next_to_abandoned_handshakes", "sessions_carried_over_to_a_server_with_another_ca"},
 	})
 }
 
@@ -208,7 +210,63 @@ func pemDER(p string) []byte {
 	return nil
 }
 
+// c18SessionAcrossServers: two servers in one process require client certificates of DIFFERENT CAs. A client that is
+// legitimate for the first one keeps a session cache and then turns to the second one with the same server name: a
+// resumed session is not a substitute for a certificate the second server's CA issued.
+func c18SessionAcrossServers(c *Ctx) {
+	pa, pb := newPKI(), newPKI()
+	var served atomic.Int64
+	mk := func(p *PKI) (*Srv, error) {
+		return startSrv(SrvCfg{TLS: p.ServerMTLS}, func(m *gldap.Mux) {
+			m.Bind(func(w *gldap.ResponseWriter, r *gldap.Request) {
+				if bm, err := r.GetSimpleBindMessage(); err == nil && bm.UserName == "cn=on-b" {
+					served.Add(1)
+				}
+				w.Write(r.NewBindResponse(gldap.WithResponseCode(0)))
+			})
+		})
+	}
+	a, err := mk(pa)
+	if err != nil {
+		c.Inconclusive("server start: " + err.Error())
+		return
+	}
+	defer a.StopWithin(patience)
+	b, err := mk(pb)
+	if err != nil {
+		c.Inconclusive("server start: " + err.Error())
+		return
+	}
+	defer b.StopWithin(patience)
+	for _, maxv := range []uint16{tls.VersionTLS12, tls.VersionTLS13} {
+		cfg := &tls.Config{InsecureSkipVerify: true, ServerName: "localhost", Certificates: []tls.Certificate{pa.Client}, ClientSessionCache: tls.NewLRUClientSessionCache(8), MaxVersion: maxv}
+		for round := 0; round < 3; round++ {
+			if cl, err := dialRaw(a.Addr, cfg); err == nil {
+				cl.Send(sber.Message(1, sber.BindRequest(3, []byte("cn=on-a"), []byte("p")), nil).Encode())
+				cl.ReadMsg(patience)
+				// read a little longer: TLS 1.3 tickets arrive after the handshake
+				cl.C.SetReadDeadline(time.Now().Add(20 * time.Millisecond))
+				sber.ReadFrame(cl.br)
+				cl.Close()
+			} else if round == 0 {
+				c.Violate("a conforming TLS client was refused", "two-server scenario, own server: "+err.Error(), nil)
+			}
+			if cl, err := dialRaw(b.Addr, cfg); err == nil {
+				cl.Send(sber.Message(2, sber.BindRequest(3, []byte("cn=on-b"), []byte("p")), nil).Encode())
+				cl.ReadMsg(2 * time.Second)
+				cl.Close()
+			}
+			c.Count("sessions_carried_over_to_a_server_with_another_ca", 1)
+		}
+	}
+	time.Sleep(20 * time.Millisecond)
+	if n := served.Load(); n > 0 {
+		c.Violate("a handler ran for bytes outside a TLS session satisfying the configuration", fmt.Sprintf("a client holding a certificate (and cached sessions) of server A's CA was served %d times by server B, which requires certificates of another CA", n), nil)
+	}
+}
+
 func c18Run(c *Ctx) {
+	c18SessionAcrossServers(c)
 	pki := newPKI()
 	for _, cfgName := range []string{"server-auth-only", "client-cert-required", "server-auth-only-certificate-from-callback", "client-cert-required-config-from-callback", "client-cert-required-while-NewServer-was-given-another-config"} {
 		mtls := strings.HasPrefix(cfgName, "client-cert-required")
@@ -370,6 +428,19 @@ func c18Run(c *Ctx) {
 
 // c18Directory runs the offending behaviours against testdirectory.Start(WithMTLS).
 func c18Directory(c *Ctx) {
+	// a CA that the HOST trusts (system roots are pointed at it before anything loads them): that is about servers the
+	// process talks to, not about who may talk to the directory
+	hostCA, hostKey, hostDER := genCA("ca-trusted-by-the-host")
+	var hostTrusted *tls.Certificate
+	if dir := os.Getenv("VERIF_SCRATCH_DIR"); dir != "" {
+		pemPath := filepath.Join(dir, "host-roots.pem")
+		if os.WriteFile(pemPath, pem.EncodeToMemory(&pem.Block{Type: "CERTIFICATE", Bytes: hostDER}), 0o644) == nil {
+			os.Setenv("SSL_CERT_FILE", pemPath)
+			os.Setenv("SSL_CERT_DIR", filepath.Join(dir, "no-such-dir"))
+			leaf := genLeaf(hostCA, hostKey, "client-of-a-host-trusted-ca", time.Now().Add(-time.Hour), time.Now().AddDate(1, 0, 0))
+			hostTrusted = &leaf
+		}
+	}
 	sink := &bytes.Buffer{}
 	var smu sync.Mutex
 	logger := hclog.New(&hclog.LoggerOptions{Name: "td", Level: hclog.Info, Output: &lockedWriter{w: sink, mu: &smu}, JSONFormat: true})
@@ -453,6 +524,9 @@ func c18Directory(c *Ctx) {
 			strangers = append(strangers, c18Behaviour{fmt.Sprintf("stranger-leaf-%d-followed-by-%s", li, []string{"the-directorys-server-certificate", "the-directorys-client-certificate"}[xi]), "add",
 				c18TLSThenBind(&tls.Config{InsecureSkipVerify: true, Certificates: []tls.Certificate{chain}}, "add")})
 		}
+	}
+	if hostTrusted != nil {
+		strangers = append(strangers, c18Behaviour{"certificate-of-a-ca-the-host-trusts", "add", c18TLSThenBind(&tls.Config{InsecureSkipVerify: true, Certificates: []tls.Certificate{*hostTrusted}}, "add")})
 	}
 	c.Count("stranger_certificates_prepared", int64(len(strangers)))
 	// a conforming client exercises every handler of the directory inside its mTLS session - including a StartTLS
